@@ -106,64 +106,69 @@ def check_group(ctx, it):
                                   % (len(tw), "inside the member loop" if tw and tw[0].loops else "none"), sample={"total_writes": len(tw)})
                 if not mw and not tw:
                     continue
-                if mw and len(tw) != 1:
+                if mw and not tw:
                     ctx.ob("R09.1", key + "/total saved", False, detail="members written but TOTAL saved %d times" % len(tw), sites=[e.site for e in mw])
                     continue
                 if not tw:
                     continue
-                t = tw[0]
-                base, chain = acc_chain(p, t.value)
-                creating = ename == "instantiate"
-                if creating:
-                    base_ok = base == ("lit", 0)
-                    why = "running total starts from %s, not 0" % show(base)[:120]
-                else:
-                    lf = loaded_from(base)
-                    base_ok = lf is not None and lf[0] == TOTAL and lf[2] == t.ver
-                    why = "running total starts from %s, not the stored TOTAL" % show(base)[:120]
-                ctx.ob("R09.1", key + "/total base", base_ok, detail=why, sites=[t.site], sample={"base": show(base)[:120]})
-                in_chain = set(lk for lk, _, _ in chain)
-                for e in mw:
-                    n_mw.add("update" if (is_rmw(e) and e.op == "save") else e.op)
-                    if not e.loops or e.loops[-1] not in in_chain:
-                        ctx.ob("R09.1", key + "/member write outside the totalling loops", False, sites=[e.site],
-                               detail="MEMBERS %s is not inside a loop whose running total is saved to TOTAL" % e.op)
-                for lk, var, delta in chain:
-                    ws = [e for e in mw if e.loops and e.loops[-1] == lk]
-                    if delta is None:
-                        continue            # zero iterations on this path
-                    kk = key + "/loop@%s:%s" % (lk[0].split("::")[-1], ws[0].op if ws else "no-write")
-                    if isinstance(delta, str):
-                        ctx.ob("R09.1", kk, False, detail="total update is %s" % delta, sites=[e.site for e in ws])
-                        continue
-                    want = NF()
-                    prob = None
-                    for e in ws:
-                        d, pr = member_write_delta(p, e, MEM)
-                        if d is None:
-                            prob = pr
-                            break
-                        if pr == "save" and not creating:
-                            prob = "member overwritten with save outside creation"
-                            break
-                        want.merge(d, 1)
-                    if prob is None and creating and ws:
-                        # UNIQUE-KEYS: duplicates rejected before the loop
-                        ent = [x for x in p.effects if x.kind == "loop_enter" and x.name == lk][0]
-                        idx = p.effects.index(ent)
-                        src = [v for v in ent.value.values() if any(y[0] == "call" and y[1].startswith("sort") for y in walk(v))]
-                        adj = [c for c in p.conds if c[3] <= idx and c[0][0] == "cmp" and c[0][1] == "eq" and c[1] is False
-                               and c[0][2][0] == "field" and c[0][2][2] == "addr"]
-                        empty_or_single = True
-                        if not src:
-                            prob = "members are created from a list that was not sorted/validated for uniqueness"
-                    if prob is None and (delta.inexact or want.inexact):
-                        prob = "inexact arithmetic %s" % (delta.inexact + want.inexact)
-                    good = prob is None and delta == want
-                    ctx.ob("R09.1", kk, good, sites=[e.site for e in ws],
-                           detail=prob or "running total changes by %s per iteration but the member writes of that iteration change the "
-                                          "weights by %s" % (delta.show(), want.show()),
-                           sample={"total_delta": delta.show(), "member_delta": want.show()})
+                # one totalling segment per TOTAL save (a message may run the member update more than once, each run reading the
+                # total the previous one saved); every member write belongs to the loops of exactly one of them
+                all_chain = set()
+                for t_ in tw:
+                    all_chain |= set(lk for lk, _, _ in acc_chain(p, t_.value)[1])
+                for t in tw:
+                    base, chain = acc_chain(p, t.value)
+                    creating = ename == "instantiate"
+                    if creating:
+                        base_ok = base == ("lit", 0)
+                        why = "running total starts from %s, not 0" % show(base)[:120]
+                    else:
+                        lf = loaded_from(base)
+                        base_ok = lf is not None and lf[0] == TOTAL and lf[2] == t.ver
+                        why = "running total starts from %s, not the stored TOTAL" % show(base)[:120]
+                    ctx.ob("R09.1", key + "/total base", base_ok, detail=why, sites=[t.site], sample={"base": show(base)[:120]})
+                    if t is tw[0]:
+                        for e in mw:
+                            n_mw.add("update" if (is_rmw(e) and e.op == "save") else e.op)
+                            if not e.loops or e.loops[-1] not in all_chain:
+                                ctx.ob("R09.1", key + "/member write outside the totalling loops", False, sites=[e.site],
+                                       detail="MEMBERS %s is not inside a loop whose running total is saved to TOTAL" % e.op)
+                    for lk, var, delta in chain:
+                        ws = [e for e in mw if e.loops and e.loops[-1] == lk]
+                        if delta is None:
+                            continue            # zero iterations on this path
+                        kk = key + "/loop@%s:%s" % (lk[0].split("::")[-1], ws[0].op if ws else "no-write")
+                        if isinstance(delta, str):
+                            ctx.ob("R09.1", kk, False, detail="total update is %s" % delta, sites=[e.site for e in ws])
+                            continue
+                        want = NF()
+                        prob = None
+                        for e in ws:
+                            d, pr = member_write_delta(p, e, MEM)
+                            if d is None:
+                                prob = pr
+                                break
+                            if pr == "save" and not creating:
+                                prob = "member overwritten with save outside creation"
+                                break
+                            want.merge(d, 1)
+                        if prob is None and creating and ws:
+                            # UNIQUE-KEYS: duplicates rejected before the loop
+                            ent = [x for x in p.effects if x.kind == "loop_enter" and x.name == lk][0]
+                            idx = p.effects.index(ent)
+                            src = [v for v in ent.value.values() if any(y[0] == "call" and y[1].startswith("sort") for y in walk(v))]
+                            adj = [c for c in p.conds if c[3] <= idx and c[0][0] == "cmp" and c[0][1] == "eq" and c[1] is False
+                                   and c[0][2][0] == "field" and c[0][2][2] == "addr"]
+                            empty_or_single = True
+                            if not src:
+                                prob = "members are created from a list that was not sorted/validated for uniqueness"
+                        if prob is None and (delta.inexact or want.inexact):
+                            prob = "inexact arithmetic %s" % (delta.inexact + want.inexact)
+                        good = prob is None and delta == want
+                        ctx.ob("R09.1", kk, good, sites=[e.site for e in ws],
+                               detail=prob or "running total changes by %s per iteration but the member writes of that iteration change the "
+                                              "weights by %s" % (delta.show(), want.show()),
+                               sample={"total_delta": delta.show(), "member_delta": want.show()})
     ctx.floor("R09.1", "cw4-group MEMBERS write kinds (save/update/remove)", len(n_mw), 3)
     ctx.floor("R09.2", "cw4-group snapshot writes", n_h, 3)
     # uniqueness validation itself: adjacent compare after sort (create and update_members share it)
@@ -229,6 +234,18 @@ def unique_ok_path(ctx, p):
             cps = ctx.engine.summarise(b, args=[clos, ("param", "PAIR")])
             rets = [cp.ret for cp in cps]
             if len(rets) == 1 and _addr_eq(rets[0]) and c[1] in ("None", False):
+                return True
+        if t[0] == "call" and t[1].split("::")[-1] == "find_map" and len(t[2]) == 2 and sorted_src(t[2][0]) and adjacent(t[2][0]) and c[1] == "None":
+            # find_map(|(a, b)| (a.addr == b.addr).then_some(a)) found nothing
+            clos = t[2][1]
+            b = ctx.engine.by_dp.get(clos[1]) if clos[0] == "closure" else None
+            if b is None:
+                continue
+            cps = ctx.engine.summarise(b, args=[clos, ("param", "PAIR")])
+            if len(cps) == 1 and cps[0].ret[0] == "call" and cps[0].ret[1].split("::")[-1] in ("then_some", "then") and _addr_eq(cps[0].ret[2][0]):
+                return True
+            if len(cps) == 2 and all(len(cp.conds) == 1 and _addr_eq(cp.conds[0][0]) and cp.ret[0] == "variant"
+                                     and (cp.ret[2] == "Some") == (cp.conds[0][1] is True) for cp in cps):
                 return True
     return False
 
